@@ -68,7 +68,8 @@ def mul(x, y):
 
 
 class MNF:
-    def __init__(self, symmetric=(), vectors=(), index_norm=None, scalars=()):
+    def __init__(self, symmetric=(), vectors=(), index_norm=None, scalars=(), atoms=()):
+        self.atoms = set(atoms)                # terms the caller declares to be free symbols (a working copy whose history another rule reads)
         self.symmetric = set(symmetric)        # base terms known to be symmetric matrices
         self.vectors = set(vectors)            # terms known to be 1-D
         self.scalars = set(scalars)            # index terms known to be single integers
@@ -144,7 +145,7 @@ class MNF:
         t = T(t)
         if not isinstance(t, tuple):
             raise Inconclusive("MNF: %r" % (t,))
-        if t in self.vectors or t in self.symmetric:
+        if t in self.vectors or t in self.symmetric or t in self.atoms:
             return self.atom(t)
         k = t[0]
         if k == "const":
@@ -220,6 +221,9 @@ class MNF:
             return self.subscript(t)
         if k == "default":
             return self.nf(t[2])
+        if k in ("phi", "after", "mu", "join", "comp", "store", "mut", "bool", "cmp", "unbound", "shuffled"):
+            # a value that depends on a branch, a loop or an update is not a free symbol: two normal forms that differ in it are not "different"
+            return self.opaque(t)
         return self.atom(t)
 
     def subscript(self, t):
